@@ -47,6 +47,7 @@ type EntrySpec struct {
 	Overflow       bool                `json:"overflow"`
 	Tol            float64             `json:"tol"`
 	Schedule       bool                `json:"schedule"` // C16: collect access traces and run the schedule query
+	GoThreads      bool                `json:"go_threads"` // go statements start logical threads covered by the schedule query
 	MaxEnum        int                 `json:"max_enum"`
 	NoValidate     bool                `json:"no_validate"`
 	ExpectNd       bool                `json:"expect_no_nondeterminism"`
@@ -240,7 +241,7 @@ func cmdCheck(args []string) int {
 	seed, _ := strconv.ParseInt(os.Getenv("VERIF_SEED"), 10, 64)
 	root := filepath.Join(*verif, "harness")
 	if *replay != "" {
-		return cmdReplay(*repo, root, id, *replay)
+		return cmdReplay(*repo, root, *verif, id, *replay)
 	}
 	t0 := time.Now()
 	specB, err := os.ReadFile(filepath.Join(*verif, "checks", id+".json"))
@@ -335,6 +336,7 @@ func cmdCheck(args []string) int {
 		cfg.AllowCuts = es.AllowCuts
 		cfg.CheckOverflow = es.Overflow
 		cfg.AccessLog = es.Schedule
+		cfg.GoThreads = es.GoThreads
 		cfg.Seed = seed
 		cfg.redirects = map[string]*ssa.Function{}
 		for from, to := range es.Redirects {
@@ -581,7 +583,9 @@ func cmdCheck(args []string) int {
 			}
 		}
 		if !confirmed {
-			os.Remove(c.path)
+			if os.Getenv("VERIF_KEEP_UNCONFIRMED") == "" {
+				os.Remove(c.path)
+			}
 			inconclusive = append(inconclusive, fmt.Sprintf("UNCONFIRMED counter-example for %q in %s: %s", c.v.Msg, c.spec.Entry, why))
 			continue
 		}
@@ -747,7 +751,7 @@ func compareObs(engine []ObservedVal, native []ObservedVal, tol float64) string 
 	return ""
 }
 
-func cmdReplay(repo, root, id, path string) int {
+func cmdReplay(repo, root, verif, id, path string) int {
 	b, err := os.ReadFile(path)
 	if err != nil {
 		fmt.Println("cannot read replay file:", err)
@@ -766,7 +770,20 @@ func cmdReplay(repo, root, id, path string) int {
 	}
 	tmp := filepath.Join(os.TempDir(), fmt.Sprintf("gosym-replay-%d.json", os.Getpid()))
 	defer os.Remove(tmp)
-	res, log, err := RunReplays(repo, root, []ReplayJob{{Dir: rf.Dir, Entry: rf.Entry, Script: rf.Script, Tol: rf.Tol, Path: tmp, Real: rf.Real}}, false, 10*time.Minute)
+	job := ReplayJob{Dir: rf.Dir, Entry: rf.Entry, Script: rf.Script, Tol: rf.Tol, Path: tmp, Real: rf.Real}
+	race := false
+	if specB, err := os.ReadFile(filepath.Join(verif, "checks", id+".json")); err == nil {
+		// the entry's native redirects and race-detector setting come from the check spec
+		var spec CheckSpec
+		if json.Unmarshal(specB, &spec) == nil {
+			for _, es := range spec.Entries {
+				if es.Entry == rf.Entry {
+					job.Rename, job.NativeFiles, race = es.NativeRename, es.NativeFiles, es.Race
+				}
+			}
+		}
+	}
+	res, log, err := RunReplays(repo, root, []ReplayJob{job}, race, 10*time.Minute)
 	if err != nil || res[tmp] == nil {
 		fmt.Println("replay failed:", err, log)
 		return 2
@@ -775,6 +792,9 @@ func cmdReplay(repo, root, id, path string) int {
 	fmt.Printf("entry=%s failures=%q panic=%q diverged=%q\n", rr.Entry, rr.Failures, trunc(rr.Panic, 300), rr.Diverged)
 	for _, o := range rr.Observed {
 		fmt.Printf("  observed %s = %v %v %v %s\n", o.Tag, o.F, o.I, o.B, o.Val)
+	}
+	if rr.Stack != "" {
+		fmt.Println(rr.Stack)
 	}
 	if len(rr.Failures) > 0 || rr.Panic != "" {
 		fmt.Printf("VIOLATION property=%s replay=%s\n", id, path)
